@@ -415,6 +415,9 @@ func palindromic(a [4]byte) bool { return a[0] == a[3] && a[1] == a[2] }
 func genIP(rt *rapid.T, label string) [4]byte {
 	var a [4]byte
 	a[0] = byte(pick(rt, label+".a", 10, 100, 172, 192, rapid.IntRange(1, 223).Draw(rt, label+".a0")))
+	if a[0] == 9 { // reserved for the far end of the flows (see other())
+		a[0] = 11
+	}
 	a[1] = byte(rapid.IntRange(0, 255).Draw(rt, label+".b"))
 	if chance(rt, label+".pal", 1, 3) {
 		a[2], a[3] = a[1], a[0]
